@@ -18,7 +18,7 @@ func init() {
 		Explanation: "C20.1 range arithmetic of the port-range generator under the precondition 1 ≤ MinPort ≤ MaxPort ≤ 65535 (linear forms evaluated at the polytope's vertices): the argument of every Intn is ≥ 1, the port that reaches the bind call lies in [MinPort, MaxPort], and no uint16 expression tree wraps at its root (MaxPort = 65535 and single-port ranges included); " +
 			"C20.2 the advertised address is the bound socket's own LocalAddr()/Addr() with only its IP overwritten by RelayAddress (range, static) or untouched (none), and a requested port is passed unchanged to the bind call; " +
 			"C20.3 clean failure: every return with a non-nil error returns no socket, and the retry loops are bounded by MaxRetries; " +
-			"C20.5 requested ports are not invented: a non-zero RequestedPort handed to a generator is a port a generator bound before (read from the address it returned), or that port + 1 (the RFC 5766 reservation pair); C20.6 the socket / listener an allocation relays on is the result of a generator call made for that allocation, never one taken from a table or field where another request could find it too; " +
+			"C20.5 requested ports are not invented: a non-zero RequestedPort handed to a generator is a port a generator bound before (read from the address it returned), or that port + 1 (the RFC 5766 reservation pair); C20.6 the socket / listener an allocation relays on is the result of a generator call made for that allocation, never one taken from a table or field where another request could find it too; C20.7 a socket obtained from the generator inside a loop (the even-port probe) is closed in the same iteration, not by a defer that runs when the whole search returns — held probes fill the range and make the search fail while ports are free; " +
 			"C20.4 UDP relay sockets are bound by a plain ListenPacket: SO_REUSEPORT (reuseport.Control) is referenced only by the TCP listener/dialer paths, so a busy UDP port is refused by the kernel rather than shared.",
 		NotCovered: "that two live sockets cannot share a port is the kernel's bind() semantics; the quality of the random source; a MinPort > MaxPort configuration (outside the property's precondition).",
 		Run:        runC20,
@@ -782,6 +782,7 @@ func runC20(c *Ctx) {
 	}
 	ruleRequestedPortsNotInvented(c, "C20.5")
 	ruleRelaySocketFresh(c, "C20.6")
+	ruleProbeReleasedPerIteration(c, "C20.7")
 }
 
 func isClosureCall(w *World, call *ssa.Call) bool {
@@ -1218,4 +1219,73 @@ func (w *World) relaySocketOrigins(v ssa.Value, d int, seen map[ssa.Value]bool, 
 		}
 	}
 	out[w.desc(v)] = true
+}
+
+// ruleProbeReleasedPerIteration (C20.7): GetRandomEvenPort binds a socket per attempt to learn
+// its port and must let it go before the next attempt. `defer conn.Close()` inside the loop
+// runs at function return: up to 128 probe sockets stay bound, the port-range generator's
+// retries collide with them, and the search reports "no port" while ports are free.
+func ruleProbeReleasedPerIteration(c *Ctx, rule string) {
+	w := c.W
+	c.Rule(rule, "in every function of package allocation that calls Manager.allocatePacketConn / allocateListener inside a loop, no defer statement inside that loop closes the socket obtained: the release is a plain call in the iteration", 1)
+	gens := map[*types.Var]bool{
+		w.Field("allocation", "Manager", "allocatePacketConn"): true,
+		w.Field("allocation", "Manager", "allocateListener"):   true,
+	}
+	apkg := w.tpkg("allocation").Path()
+	n := 0
+	for _, fn := range w.ModFns {
+		if fnPkgPath(fn) != apkg {
+			continue
+		}
+		w.eachInstr(fn, func(in ssa.Instruction) {
+			call, ok := in.(*ssa.Call)
+			if !ok || call.Call.IsInvoke() || call.Call.StaticCallee() != nil {
+				return
+			}
+			if _, f, isL := fieldLoad(call.Call.Value); !isL || !gens[f] {
+				return
+			}
+			if !instrReaches(in, in) {
+				return // not in a loop
+			}
+			n++
+			c.Anchor(rule, fname(fn))
+			bad := ""
+			w.eachInstr(fn, func(i2 ssa.Instruction) {
+				d, isD := i2.(*ssa.Defer)
+				if !isD || !instrReaches(i2, i2) {
+					return
+				}
+				// a deferred Close (method value, invoke or closure calling Close) of a value from this call
+				closes := false
+				if d.Call.IsInvoke() && d.Call.Method.Name() == "Close" {
+					if cc, _ := callOf(stripIface(w.resolveLoad(d.Call.Value))); cc == call {
+						closes = true
+					}
+				}
+				if mcl, isMC := d.Call.Value.(*ssa.MakeClosure); isMC {
+					if body := w.closureBody(mcl); body != nil {
+						w.eachInstr(body, func(i3 ssa.Instruction) {
+							if c3, ok3 := i3.(*ssa.Call); ok3 && c3.Call.IsInvoke() && c3.Call.Method.Name() == "Close" {
+								closes = true
+							}
+						})
+					}
+				}
+				if closes {
+					bad = w.instrPos(i2)
+				}
+			})
+			if bad == "" {
+				c.OK(rule, fname(fn), "probe socket", w.instrPos(in), "no deferred release inside the loop")
+			} else {
+				c.Bad(rule, fname(fn), "probe socket", w.instrPos(in), "the socket bound in this loop is released by a defer inside the loop ("+bad+"): deferred calls run when the function returns, so every probe of the search stays bound until it ends — the range fills up with the manager's own probes and the search fails although ports are free")
+			}
+		})
+	}
+	if n == 0 {
+		c.Anchor(rule, "-")
+		c.Bad(rule, "-", "probe socket", "-", "no generator call inside a loop found (GetRandomEvenPort's probe): anchor gone")
+	}
 }
